@@ -251,7 +251,10 @@ def run_one(m, known):
         failed, tool, _ = driver.classify(G, res)
         if tool:
             return (m, 'undecided', tool[0][:80])
-        fo = [o for o in failed if o not in known]
+        hints = [o for o in failed if o not in known and G.obligations[o]['kind'] == 'proof-block']
+        fo = [o for o in failed if o not in known and G.obligations[o]['kind'] != 'proof-block']
+        if not fo and hints:
+            return (m, 'undecided', 'only proof hints fail: %s' % hints[:2])
         return (m, 'killed' if fo else 'survived', ','.join(sorted({t for o in fo for t in G.obligations[o]['tags']})))
     finally:
         shutil.rmtree(wd, ignore_errors=True)
